@@ -544,9 +544,9 @@ def gen_choices(rng, rows, w: int) -> List[str]:
     return out
 
 
-def gen_case(rng, i: int) -> Case:
+def gen_case(rng, i: int, big_every: int = 20) -> Case:
     m = i % 20
-    if m == 0:
+    if i % big_every == 0:
         w = rng.choice(WIDTHS_BIG)
     elif m < 5:
         w = rng.choice(WIDTHS_MID)
@@ -565,7 +565,13 @@ def gen_case(rng, i: int) -> Case:
 
 
 def run_tables(ctx: C.Ctx, b: Batch) -> None:
-    from pdfminer.ccitt import CCITTG4Parser as P
+    try:
+        from pdfminer.ccitt import CCITTG4Parser as P
+    except Exception as e:  # noqa: BLE001  (e.g. BitParser.add raising while the class body builds a table)
+        ctx.fail(C.Failure("pdfminer.ccitt cannot be imported (code table construction raised)",
+                           {"table": "import"}, "module imports", "EXC:" + type(e).__name__,
+                           {"kind": "table", "exception": type(e).__name__}))
+        return
     for name in ("MODE", "WHITE", "BLACK", "UNCOMPRESSED"):
         want = ser_trie(getattr(P, name))
         ctx.case(("trie", name, want), True, branch="table:" + name)
@@ -589,7 +595,7 @@ def run_exhaustive(ctx: C.Ctx, b: Batch) -> None:
     # (width, height, full product of the rows' choice sequences?)
     scope = ([(w, h, True) for w in range(1, 6) for h in (1, 2)] + [(w, 3, True) for w in (1, 2, 3)] +
              [(4, 3, False), (5, 3, False)]) if thorough else \
-        [(w, 1, True) for w in range(1, 6)] + [(w, 2, True) for w in (1, 2, 3)] + [(4, 2, False)]
+        [(w, 1, True) for w in range(1, 6)] + [(w, 2, True) for w in (1, 2, 3, 4)] + [(5, 2, False), (3, 3, False)]
     variants = [(a, r, e) for a in (0, 1) for r in (0, 1) for e in (1, 0)]
     n = 0
     complete = True
@@ -644,7 +650,7 @@ def run_structured(ctx: C.Ctx, b: Batch) -> None:
 def run_defaults(ctx: C.Ctx, b: Batch) -> None:
     """Fax-width images whose parameter dictionary relies on the ISO 32000 defaults (Columns 1728, ...)."""
     rng = ctx.rng
-    for i in range(ctx.n(6, 60)):
+    for i in range(ctx.n(12, 60)):
         rows: List[List[int]] = []
         for _ in range(rng.choice([1, 2, 3])):
             rows.append(gen_row(rng, 1728, rows[-1] if rows else None))
@@ -654,16 +660,16 @@ def run_defaults(ctx: C.Ctx, b: Batch) -> None:
 
 def run_random(ctx: C.Ctx, b: Batch) -> None:
     rng = ctx.rng
-    for i in range(ctx.n(700, 40000)):
+    for i in range(ctx.n(2500, 40000)):
         if not ctx.time_left():
             break
-        b.add_rt(gen_case(rng, i))
+        b.add_rt(gen_case(rng, i, 60 if ctx.tier == "quick" else 20))
 
 
 def run_damaged(ctx: C.Ctx, b: Batch) -> None:
     """Tie only: the model must agree with the code on streams no encoder produces."""
     rng = ctx.rng
-    for i in range(ctx.n(600, 20000)):
+    for i in range(ctx.n(2000, 20000)):
         w = rng.choice([1, 2, 3, 5, 8, 9, 16, 17, 40, 70])
         k = rng.random()
         if k < 0.35:
